@@ -793,3 +793,181 @@ pub proof fn lemma_consume_pending_bounds(r: Range<usize>, p: Seq<RemoveMarker>,
 {
     if c < p.len() && p[c].0.start < r.end { lemma_consume_pending_bounds(r, p, c + 1); }
 }
+
+// ---- C17: what the interleaving yields (pure consequences of merge_all_final) ----
+pub open spec fn ready_sub(l: Seq<(RemoveMarker, bool)>) -> Seq<RemoveMarker>
+    decreases l.len(),
+{
+    if l.len() == 0 { Seq::empty() } else if l.last().1 { ready_sub(l.drop_last()).push(l.last().0) } else { ready_sub(l.drop_last()) }
+}
+pub open spec fn pending_sub(l: Seq<(RemoveMarker, bool)>) -> Seq<RemoveMarker>
+    decreases l.len(),
+{
+    if l.len() == 0 { Seq::empty() } else if !l.last().1 { pending_sub(l.drop_last()).push(l.last().0) } else { pending_sub(l.drop_last()) }
+}
+/// the pending marker x lies inside (both ends half-open-contained in) one of the ready markers
+pub open spec fn inside_some(rs: Seq<RemoveMarker>, x: RemoveMarker) -> bool {
+    exists|n: int| 0 <= n < rs.len() && rcontains((#[trigger] rs[n]).0, x.0.start) && rcontains(rs[n].0, x.0.end)
+}
+/// the pending markers a <= c < b that are not inside a ready marker, in order
+pub open spec fn pend_kept(rs: Seq<RemoveMarker>, p: Seq<RemoveMarker>, a: int, b: int) -> Seq<RemoveMarker>
+    decreases b - a,
+{
+    if b <= a { Seq::empty() } else if inside_some(rs, p[b - 1]) { pend_kept(rs, p, a, b - 1) } else { pend_kept(rs, p, a, b - 1).push(p[b - 1]) }
+}
+pub open spec fn markers_sorted_by_start(p: Seq<RemoveMarker>) -> bool {
+    forall|i: int, j: int| 0 <= i <= j < p.len() ==> (#[trigger] p[i]).0.start <= (#[trigger] p[j]).0.start
+}
+pub proof fn lemma_sub_add(a: Seq<(RemoveMarker, bool)>, b: Seq<(RemoveMarker, bool)>)
+    ensures ready_sub(a + b) == ready_sub(a) + ready_sub(b), pending_sub(a + b) == pending_sub(a) + pending_sub(b),
+    decreases b.len(),
+{
+    if b.len() == 0 {
+        assert(a + b =~= a);
+        assert(ready_sub(a) + ready_sub(b) =~= ready_sub(a));
+        assert(pending_sub(a) + pending_sub(b) =~= pending_sub(a));
+    } else {
+        assert((a + b).drop_last() =~= a + b.drop_last());
+        assert((a + b).last() == b.last());
+        lemma_sub_add(a, b.drop_last());
+        assert(ready_sub(a + b) =~= ready_sub(a) + ready_sub(b));
+        assert(pending_sub(a + b) =~= pending_sub(a) + pending_sub(b));
+    }
+}
+pub proof fn lemma_sub_one(x: (RemoveMarker, bool))
+    ensures ready_sub(seq![x]) == (if x.1 { seq![x.0] } else { Seq::empty() }),
+            pending_sub(seq![x]) == (if x.1 { Seq::empty() } else { seq![x.0] }),
+{
+    assert(seq![x].drop_last() =~= Seq::<(RemoveMarker, bool)>::empty());
+    assert(seq![x].last() == x);
+    assert(ready_sub(seq![x].drop_last()) =~= Seq::<RemoveMarker>::empty());
+    assert(pending_sub(seq![x].drop_last()) =~= Seq::<RemoveMarker>::empty());
+    assert(ready_sub(seq![x]) =~= (if x.1 { seq![x.0] } else { Seq::empty() }));
+    assert(pending_sub(seq![x]) =~= (if x.1 { Seq::empty() } else { seq![x.0] }));
+}
+pub proof fn lemma_pend_kept_split(rs: Seq<RemoveMarker>, p: Seq<RemoveMarker>, a: int, m: int, b: int)
+    requires a <= m <= b,
+    ensures pend_kept(rs, p, a, b) == pend_kept(rs, p, a, m) + pend_kept(rs, p, m, b),
+    decreases b - m,
+{
+    if b == m { assert(pend_kept(rs, p, a, m) + pend_kept(rs, p, m, b) =~= pend_kept(rs, p, a, m)); }
+    else {
+        lemma_pend_kept_split(rs, p, a, m, b - 1);
+        assert(pend_kept(rs, p, a, b) =~= pend_kept(rs, p, a, m) + pend_kept(rs, p, m, b));
+    }
+}
+/// the pending markers consumed in front of ready marker n: no ready items; exactly the ones not inside a ready marker
+pub proof fn lemma_consume_pending_sub(rs: Seq<RemoveMarker>, n: int, p: Seq<RemoveMarker>, c: int)
+    requires
+        0 <= n < rs.len(), 0 <= c <= p.len(), markers_sorted(rs), markers_sorted_by_start(p),
+        n > 0 && c < p.len() ==> p[c].0.start >= rs[n - 1].0.end,
+    ensures
+        ready_sub(consume_pending(rs[n].0, p, c).0) == Seq::<RemoveMarker>::empty(),
+        pending_sub(consume_pending(rs[n].0, p, c).0) == pend_kept(rs, p, c, consume_pending(rs[n].0, p, c).1),
+        c <= consume_pending(rs[n].0, p, c).1 <= p.len(),
+        consume_pending(rs[n].0, p, c).1 < p.len() ==> p[consume_pending(rs[n].0, p, c).1].0.start >= rs[n].0.end,
+    decreases p.len() - c,
+{
+    let r = rs[n].0;
+    let e = Seq::<RemoveMarker>::empty();
+    if c < p.len() && p[c].0.start < r.end {
+        assert(c + 1 < p.len() ==> p[c + 1].0.start >= p[c].0.start);
+        lemma_consume_pending_sub(rs, n, p, c + 1);
+        let rest = consume_pending(r, p, c + 1);
+        let squash = rcontains(r, p[c].0.start) && rcontains(r, p[c].0.end);
+        let head = if squash { Seq::<(RemoveMarker, bool)>::empty() } else { seq![(p[c], false)] };
+        lemma_sub_add(head, rest.0);
+        if !squash { lemma_sub_one((p[c], false)); }
+        // inside some ready marker <==> inside this one
+        assert(inside_some(rs, p[c]) == squash) by {
+            if squash { assert(rcontains(rs[n].0, p[c].0.start)); }
+            if inside_some(rs, p[c]) {
+                let m = choose|m: int| 0 <= m < rs.len() && rcontains((#[trigger] rs[m]).0, p[c].0.start) && rcontains(rs[m].0, p[c].0.end);
+                if m < n { assert(rs[m].0.end <= rs[n - 1].0.end) by { if m < n - 1 { assert(rs[m].0.end <= rs[n - 1].0.start); } } }
+                if m > n { assert(rs[n].0.end <= rs[m].0.start); }
+                assert(m == n);
+            }
+        }
+        lemma_pend_kept_split(rs, p, c, c + 1, rest.1);
+        assert(pend_kept(rs, p, c, c + 1) =~= (if squash { e } else { seq![p[c]] })) by {
+            assert(pend_kept(rs, p, c, c) =~= e);
+        }
+        assert(e + ready_sub(rest.0) =~= ready_sub(rest.0));
+    } else {
+        assert(pend_kept(rs, p, c, c) =~= e);
+    }
+}
+pub proof fn lemma_merge_all_sub(rs: Seq<RemoveMarker>, p: Seq<RemoveMarker>, n: int)
+    requires 0 <= n <= rs.len(), markers_sorted(rs), markers_sorted_by_start(p),
+    ensures
+        ready_sub(merge_all(rs, p, n).0) == rs.take(n),
+        pending_sub(merge_all(rs, p, n).0) == pend_kept(rs, p, 0, merge_all(rs, p, n).1),
+        0 <= merge_all(rs, p, n).1 <= p.len(),
+        n > 0 && merge_all(rs, p, n).1 < p.len() ==> p[merge_all(rs, p, n).1].0.start >= rs[n - 1].0.end,
+    decreases n,
+{
+    if n <= 0 {
+        assert(rs.take(0) =~= Seq::<RemoveMarker>::empty());
+    } else {
+        lemma_merge_all_sub(rs, p, n - 1);
+        let prev = merge_all(rs, p, n - 1);
+        lemma_consume_pending_sub(rs, n - 1, p, prev.1);
+        let cp = consume_pending(rs[n - 1].0, p, prev.1);
+        lemma_sub_add(prev.0 + cp.0, seq![(rs[n - 1], true)]);
+        lemma_sub_add(prev.0, cp.0);
+        lemma_sub_one((rs[n - 1], true));
+        lemma_pend_kept_split(rs, p, 0, prev.1, cp.1);
+        assert(rs.take(n) =~= rs.take(n - 1).push(rs[n - 1]));
+        assert(ready_sub(merge_all(rs, p, n).0) =~= rs.take(n));
+        assert(pending_sub(merge_all(rs, p, n).0) =~= pend_kept(rs, p, 0, cp.1));
+    }
+}
+/// C17: the Ready items of the full listing are exactly the ready markers (each once, in order) and its Pending
+/// items are exactly the pending markers that do not lie inside a ready marker (each once, in order)
+pub proof fn lemma_merge_all_final_sub(rs: Seq<RemoveMarker>, p: Seq<RemoveMarker>)
+    requires markers_sorted(rs), markers_sorted_by_start(p),
+    ensures
+        ready_sub(merge_all_final(rs, p)) == rs,
+        pending_sub(merge_all_final(rs, p)) == pend_kept(rs, p, 0, p.len() as int),
+{
+    let n = rs.len() as int;
+    lemma_merge_all_sub(rs, p, n);
+    let m = merge_all(rs, p, n);
+    assert(rs.take(n) =~= rs);
+    let e = Seq::<RemoveMarker>::empty();
+    if m.1 < p.len() {
+        let t = pending_tail(p, m.1);
+        lemma_sub_add(m.0, t);
+        lemma_pending_tail_sub(rs, p, m.1, p.len() as int);
+        assert(t.take(p.len() - m.1) =~= t);
+        lemma_pend_kept_split(rs, p, 0, m.1, p.len() as int);
+        assert(rs + e =~= rs);
+    } else {
+        assert(m.0 + Seq::<(RemoveMarker, bool)>::empty() =~= m.0);
+    }
+}
+/// the pending markers behind the last ready marker are all listed
+pub proof fn lemma_pending_tail_sub(rs: Seq<RemoveMarker>, p: Seq<RemoveMarker>, c: int, b: int)
+    requires 0 <= c <= b <= p.len(), markers_sorted(rs), markers_sorted_by_start(p),
+        rs.len() > 0 && c < p.len() ==> p[c].0.start >= rs[rs.len() - 1].0.end,
+    ensures
+        ready_sub(pending_tail(p, c).take(b - c)) == Seq::<RemoveMarker>::empty(),
+        pending_sub(pending_tail(p, c).take(b - c)) == pend_kept(rs, p, c, b),
+    decreases b - c,
+{
+    let t = pending_tail(p, c).take(b - c);
+    if b == c {
+        assert(t =~= Seq::<(RemoveMarker, bool)>::empty());
+    } else {
+        lemma_pending_tail_sub(rs, p, c, b - 1);
+        assert(t.drop_last() =~= pending_tail(p, c).take(b - 1 - c));
+        assert(t.last() == (p[b - 1], false));
+        assert(!inside_some(rs, p[b - 1])) by {
+            if inside_some(rs, p[b - 1]) {
+                let m = choose|m: int| 0 <= m < rs.len() && rcontains((#[trigger] rs[m]).0, p[b - 1].0.start) && rcontains(rs[m].0, p[b - 1].0.end);
+                assert(p[c].0.start <= p[b - 1].0.start);
+                if m < rs.len() - 1 { assert(rs[m].0.end <= rs[rs.len() - 1].0.start); }
+            }
+        }
+    }
+}
